@@ -43,6 +43,32 @@ fn observe(v: &dyn ValueView, ordered: bool) -> String {
     out
 }
 
+/// everything the ArrayView interface says about a sequence
+fn observe_array(a: &dyn liquid::model::ArrayView) -> String {
+    let n = a.size();
+    let vals: Vec<String> = a.values().map(|v| dump_view(v)).collect();
+    let mut out = format!("size={n} values=[{}] first={:?} last={:?} asvalue={}", vals.join(","), a.first().map(|v| dump_view(v)), a.last().map(|v| dump_view(v)), dump_view(a.as_value()));
+    for i in -(n + 2)..=(n + 1) {
+        out.push_str(&format!(" {i}:{}{:?}", a.contains_key(i) as u8, a.get(i).map(|v| dump_view(v))));
+    }
+    out
+}
+
+/// everything the ObjectView interface says about a map (order-free)
+fn observe_object(o: &dyn ObjectView) -> String {
+    let mut keys: Vec<String> = o.keys().map(|k| k.to_string()).collect();
+    keys.sort();
+    let mut vals: Vec<String> = o.values().map(|v| dump_view(v)).collect();
+    vals.sort();
+    let mut pairs: Vec<String> = o.iter().map(|(k, v)| format!("{k}={}", dump_view(v))).collect();
+    pairs.sort();
+    let mut out = format!("size={} keys={keys:?} values={vals:?} iter={pairs:?} asvalue={}", o.size(), dump_view(o.as_value()));
+    for k in keys.iter().map(|k| k.as_str()).chain(["size", "first", "no such key", ""]) {
+        out.push_str(&format!(" {k:?}:{}{:?}", o.contains_key(k) as u8, o.get(k).map(|v| dump_view(v))));
+    }
+    out
+}
+
 fn gen_value(r: &mut Rng, depth: usize) -> RVal {
     let k = if depth >= 4 { r.below(9) } else { r.below(13) };
     match k {
@@ -196,6 +222,41 @@ fn check_datum(ctx: &mut Ctx, rv: &RVal) {
             // text forms of maps depend on their own iteration order
             views.push(("HashMap", observe(&hm, ordered && o.len() <= 1)));
             views.push(("BTreeMap", observe(&bm, ordered && o.len() <= 1)));
+        }
+        // the container interfaces of every container view of the datum agree as well
+        if let Value::Array(a) = &v {
+            let base_a = observe_array(v.as_array().expect("array view of an array"));
+            let vec: Vec<Value> = a.clone();
+            let others = [
+                ("ArrayView of Vec<Value>", observe_array(&vec)),
+                ("ArrayView of ValueCow", observe_array(ValueCow::Borrowed(&v).as_array().expect("array"))),
+                ("ArrayView of &Value", observe_array((&&v).as_array().expect("array"))),
+                ("ArrayView of Some(v)", observe_array(Some(v.clone()).as_array().expect("array"))),
+            ];
+            for (name, o) in others {
+                if o != base_a {
+                    views.push((name, format!("CONTAINER-INTERFACE-DIFFERS {o} vs {base_a}")));
+                }
+            }
+        }
+        if let Value::Object(o) = &v {
+            let base_o = observe_object(v.as_object().expect("object view of an object"));
+            let hm: HashMap<String, Value> = o.iter().map(|(k, v)| (k.to_string(), v.clone())).collect();
+            let bm: BTreeMap<String, Value> = o.iter().map(|(k, v)| (k.to_string(), v.clone())).collect();
+            let hk: HashMap<liquid::model::KString, Value> = o.iter().map(|(k, v)| (k.clone(), v.clone())).collect();
+            let others = [
+                ("ObjectView of Object", observe_object(o)),
+                ("ObjectView of HashMap<String,_>", observe_object(&hm)),
+                ("ObjectView of BTreeMap<String,_>", observe_object(&bm)),
+                ("ObjectView of HashMap<KString,_>", observe_object(&hk)),
+                ("ObjectView of ValueCow", observe_object(ValueCow::Borrowed(&v).as_object().expect("object"))),
+                ("ObjectView of Some(v)", observe_object(Some(v.clone()).as_object().expect("object"))),
+            ];
+            for (name, ob) in others {
+                if ob != base_o {
+                    views.push((name, format!("CONTAINER-INTERFACE-DIFFERS {ob} vs {base_o}")));
+                }
+            }
         }
         // pairwise equality of the views through the value model
         let eqs = [
